@@ -149,3 +149,12 @@ def guard(report, rule, fn, *args):
         report.undecidable(rule, "unmodelled", str(e))
     except Exception as e:  # a crash of the checker must never read as a pass
         report.undecidable(rule, "checker-error", "%s: %s\n%s" % (type(e).__name__, e, traceback.format_exc()[-1500:]))
+
+
+def witnesses(report, prop, fx):
+    """E7: compile-fail witnesses of the property (only in the default configuration: they test the public API's types)."""
+    if fx.features != "async,http" or fx.doc.get("release"):
+        return
+    import witness
+    report.rule("E7", "compile-fail witnesses: programs that would violate the type-level part of the property are rejected by the compiler with the stated error code; their twins without the offending line compile")
+    guard(report, "E7", witness.run, prop)
